@@ -703,3 +703,11 @@ func specHeaderAt(line []byte, c, ks, ke, vs, ve int) bool {
 //@   ensures [vtight] ok && len(v) > 0 ==> !isBlank(v[0]) && !isBlank(v[len(v)-1])
 //@   ensures [canon] ok ==> forall(0, len(k), func(i int) bool { return k[i] == specCanon(iteByte(i == 0, '-', k[i-1]), k[i]) })
 //@   assigns bytes(line)
+
+// Subprotocol selection (C17, C09): the returned string never shares memory with the header
+// bytes it was cut from (those live in a pooled read buffer).
+//@ func btsSelectProtocol
+//@   props C17 C09
+//@   call httphead.ScanTokens havoc
+//@   ensures [copy] freshStr(ret)
+//@   ensures [none] !ok ==> len(ret) == 0
